@@ -30,7 +30,15 @@ type Cfg struct {
 	KK    string // vk u64 i64 str bytes
 	VKind string // u64 bytes str
 	Cache string // none big tiny
+	// Reg: RemoteConfig.UnmarshalerUsesRegisteredTypes (nodes are decoded by handing the whole
+	// Node to the unmarshaler; only with string keys, string values and the v1marshaler format,
+	// whose default-JSON decoding gives back the same Go types)
+	Reg bool `json:",omitempty"`
 }
+
+// RegMode: the registered-types decoding is used only where default JSON gives back the Go
+// types that were stored (a family may have overridden the key kind after RandCfg)
+func (c Cfg) RegMode() bool { return c.Reg && c.KK == "str" && c.VKind == "str" && c.Fmt == "json" }
 
 func (c Cfg) Line() string { return fmt.Sprintf("cfg %d %s %s %s", c.BF, c.Fmt, c.KK, c.VKind) }
 
